@@ -167,8 +167,12 @@ def traces(ctx, n):
             raise MachineryError(f'recorder issued a design outside the domain of the specification: {d["rec"]}')
         rec = d['rec']
         dc = U.design_class(rec)
+        exp_nan = (g.get('expected') or {}).get('nan') if g else None
         if g and not g.get('labels', True):
             key = 'a/labels/trace'
+        elif d['known'] is None and exp_nan and not all(exp_nan) and all(d['ev']['nan']) and g.get('labels', True) \
+                and not g.get('nan', True):
+            key = U.POISON
         else:
             key = d['known'] or (f"a/value/trace/{rec['m']}/{rec['w']}/" + ('cv' if dc['cv'] else 'nocv') + '/'
                                  + ('complete' if dc['complete'] else 'nan'))
@@ -199,6 +203,9 @@ def run(ctx):
             ('nan_chan', dict(nobs=4, nch=3, nlab=2, dataids=(3,), nanmode='chan', foldmodes=('none', 'given')), 6, 2500),
             ('foldbal', dict(nobs=6, nch=2, nlab=3, dataids=(1,), nanmode='none', design='foldbal', foldmodes=('given',),
                              methods=('crossnobis', 'poisson_cv', 'euclidean')), 2, 1500),
+            # three conditions of which one has no admissible pair of its own needs >= 5 observations
+            ('reps5cv', dict(nobs=5, nch=2, nlab=3, dataids=(2,), nanmode='none', foldmodes=('given',),
+                             methods=('euclidean', 'poisson_cv'), weightings=('number',), precids=(0,)), 4, 1500),
         ]
     else:
         runs = [
@@ -214,6 +221,8 @@ def run(ctx):
                              methods=('crossnobis', 'poisson_cv', 'euclidean', 'mahalanobis')), 2, 5000),
             ('foldbal4', dict(nobs=4, nch=3, nlab=2, nfold=2, dataids=(1, 2, 3), nanmode='none', design='foldbal',
                               foldmodes=('given',)), 1, 500),
+            ('reps5cv', dict(nobs=5, nch=2, nlab=3, dataids=(2, 3), nanmode='none', foldmodes=('given',),
+                             methods=('euclidean', 'poisson_cv', 'crossnobis', 'correlation'), precids=(0, 1)), 8, 8000),
         ]
     ctx.exhaustive = False
     first = None
